@@ -134,6 +134,26 @@ def make_cases(chk, rng, ib, kmac, kenc, accept):
         add('two-bibs-good', [biba, S.craft_bib(chk, ib, kmac, [1], n2, scope=sc)], False, [(n1, ext[0], 'ok'), (n2, 1, 'ok')], d='D15')
         add('mixed-exception-and-failure', [rewrite_asb(biba, lambda c: c.__setitem__('targets', [n2 + 7])), bibb], True,
             [(n2, 1, 'fail')], d='D16')
+    # --- two BCBs: the first decrypts (and is removed on acceptance while the step iterates), the second must still be looked at
+    if ext:
+        e0 = ext[0]
+        ca, bla = S.craft_bcb(chk, ib, kenc, [e0], n1, [iv()], scope=sc)
+        cb, blab = S.craft_bcb(chk, ib, kenc, [1], n2, [iv()], scope=sc, blocks=bla)
+        cz, blaz = S.craft_bcb(chk, ib, kenc, [1], n2, [iv()], scope=sc, blocks=bla, kid=b'zz')
+        e0plain = [b for b in ib.blocks if b['num'] == e0][0]['btsd']
+        pl2 = [(n1, e0, e0plain), (n2, 1, pay['btsd'])]
+        add('two-bcbs-good', [ca, cb], False, [(n1, e0, 'ok'), (n2, 1, 'ok')], base=blab, plain=pl2,
+            payload=pay['btsd'] if accept else None, d='D15')
+        add('second-bcb-bad-after-good', [ca, cb], True, [(n1, e0, 'ok'), (n2, 1, 'fail')], base=S.alter_btsd(blab, 1), plain=pl2, d='D15')
+        add('second-bcb-unknown-key-after-good', [ca, cz], True, [(n1, e0, 'ok'), (n2, 1, 'fail')], base=blaz, plain=pl2, d='D15')
+        add('first-bcb-bad-second-good', [ca, cb], True, [(n1, e0, 'fail'), (n2, 1, 'ok')], base=S.alter_btsd(blab, e0), plain=pl2)
+    # --- a security result with an ATTACHED payload (copy of the original target data): the block in the bundle counts
+    def _attach(c):
+        rid, val = c['results'][0][0]
+        msg = cbor2.loads(val)
+        msg[2] = bytes.fromhex(pay['btsd'])
+        c['results'][0] = [(rid, cbor2.dumps(msg))]
+    add('attached-payload-target-altered', [rewrite_asb(bib, _attach)], True, [(n1, 1, 'fail')], base=S.alter_btsd(ib.blocks, 1))
     # --- several targets in one block: the failing target at every position, the others intact
     if len(ext) >= 2:
         for order_name, T in (('asc', [1, ext[0], ext[1]]), ('mixed', [ext[1], 1, ext[0]])):
@@ -230,7 +250,8 @@ def judge(chk, rec, ans):
     if case.defective:
         if out.delivered:
             if case.defect_id == 'D15':
-                sig, what = 'C12:second-bib-skipped-after-accept', 'the security block after an accepted (removed) one is never verified; its tampered target is delivered (D15)'
+                sig = 'C12:second-%s-skipped-after-accept' % ('bcb' if 'bcb' in case.kind else 'bib')
+                what = 'the security block after an accepted (removed) one is never verified; its unverifiable target is delivered (D15)'
             elif case.defect_id == 'D22':
                 sig, what = 'C12:unparseable-asb-ignored', 'a type 11/12 block whose BTSD is not an ASB is ignored and the bundle delivered (D22)'
             else:
@@ -261,7 +282,7 @@ def judge(chk, rec, ans):
             secs = [b for b in out.delivered_blocks if b[0] in (11, 12)]
             if accept and secs:
                 if case.defect_id == 'D15':
-                    chk.violation('C12:second-bib-skipped-after-accept',
+                    chk.violation('C12:second-%s-skipped-after-accept' % ('bcb' if 'bcb' in case.kind else 'bib'),
                                   'with acceptance configured the security block after an accepted one is neither verified nor removed (D15)', replay)
                 else:
                     chk.violation('C12:accepted-block-not-removed:%s' % case.kind, 'acceptance configured but security block still present', replay)
